@@ -17,6 +17,8 @@ using namespace sonic_json;
 namespace {
 
 static bool g_exh = false;       // --exhaustive-u: case index enumerates all 65536 \u values
+static bool g_exh_pairs = false; // --exhaustive-pairs: case index enumerates all 1024 x 1024 surrogate pairs
+static uint64_t g_pairs_seen = 0;
 static uint64_t g_u_seen = 0;    // number of \u values enumerated (exhaustive mode)
 
 struct Expect {
@@ -208,6 +210,40 @@ static void property(Src& s, Case& c) {
     if (c.counting) c.desc("all \\u" + std::to_string(hi) + "xx at offset " + std::to_string(off) + " ctx " + std::to_string(ctx));
     return;
   }
+  if (g_exh_pairs) {
+    // one high surrogate per case followed by EVERY low surrogate (1024 accepted pairs), and by 96 second escapes that are
+    // not low surrogates (boundaries of the ranges + spread): together the cases cover all 1024 x 1024 pairs
+    unsigned hi = 0xd800 + (unsigned)(c.index % 1024);
+    int ctx = (int)((c.index / 1024) % 3);
+    size_t pad = (size_t)s.pick(0, 40);
+    std::string pre, suf;
+    filler(s, pre, off);
+    filler(s, suf, (size_t)s.pick(0, 40));
+    char b[32];
+    auto one = [&](unsigned second) {
+      snprintf(b, sizeof b, (second & 1) ? "\\u%04x\\u%04X" : "\\u%04X\\u%04x", hi, second);
+      std::string body = pre + b + suf;
+      c.note("body", body);
+      c.note("ctx", std::to_string(ctx));
+      c.note("pad", std::to_string(pad));
+      std::string m = judge(body, ctx, pad, c);
+      c.subevals++;
+      if (!m.empty()) c.fail(m + " | body=" + printable(body, 200) + " ctx=" + std::to_string(ctx));
+    };
+    for (unsigned lo = 0xdc00; lo <= 0xdfff; lo++) one(lo);
+    static const unsigned edges[] = {0x0000, 0x0041, 0xd7ff, 0xd800, 0xd801, 0xdbfe, 0xdbff, 0xe000, 0xe001, 0xfffe, 0xffff, 0x005c, 0x0022, 0x00dc, 0xdc};
+    for (unsigned e : edges) one(e);
+    for (int k = 0; k < 81; k++) {
+      unsigned v = (unsigned)s.pick(0, 0xffff);
+      if (v >= 0xdc00 && v <= 0xdfff) v -= 0x400;
+      one(v);
+    }
+    g_pairs_seen += 1024;
+    c.nt();
+    c.cls("exhaustive-pairs:offset%16=" + std::to_string(off % 16));
+    if (c.counting) c.desc("high surrogate " + std::to_string(hi) + " x all low surrogates at offset " + std::to_string(off) + " ctx " + std::to_string(ctx));
+    return;
+  }
   switch (s.weighted({10, 14, 10, 12, 8, 8, 10, 6, 6, 6})) {
     case 0: {  // short escapes
       static const char* esc[] = {"\\\"", "\\\\", "\\/", "\\b", "\\f", "\\n", "\\r", "\\t"};
@@ -356,8 +392,9 @@ extern "C" int LLVMFuzzerTestOneInput(const uint8_t* data, size_t size) {
   return fuzz_bytes(def, data, size, "body");
 }
 #else
-VF_HARNESS_MAIN((HarnessDef{"c05_strings", "C05", property, direct, [] { g_exh = arg_value("exhaustive-u") != nullptr; },
+VF_HARNESS_MAIN((HarnessDef{"c05_strings", "C05", property, direct, [] { g_exh = arg_value("exhaustive-u") != nullptr; g_exh_pairs = arg_value("exhaustive-pairs") != nullptr; },
                             [](std::map<std::string, std::string>& e) {
                               if (g_exh) e["u_values_enumerated"] = std::to_string(g_u_seen);
+                              if (g_exh_pairs) e["surrogate_pairs_enumerated"] = std::to_string(g_pairs_seen);
                             }}))
 #endif
